@@ -540,8 +540,25 @@ def _buffer(ctx):
     bufname = src(app[0][1].func.value) if app else "buf"
     g2 = ctx.cfg(fb)
     wr = call_sites(g2, lambda c: isinstance(c.func, ast.Name) and c.func.id == up)
-    ok = len(wr) == 1 and src(wr[0][1].args[0]) == f"b''.join({bufname})"
-    ctx.check(ok, "recursion/buffer-order", q + "flushBuffer", "the buffer is not delivered joined in order by exactly one upstream write")
+    if len(wr) != 1 or len(wr[0][1].args) != 1:
+        ctx.check(False, "recursion/buffer-order", q + "flushBuffer", f"the buffer is delivered by {len(wr)} upstream writes, not by exactly one")
+    else:
+        delivered = wr[0][1].args[0]
+        for _ in range(3):          # a named temporary holding the joined buffer
+            if isinstance(delivered, ast.Name):
+                ds = [st.value for st in walk_local(fb) if isinstance(st, ast.Assign) and any(isinstance(t, ast.Name) and t.id == delivered.id for t in st.targets)]
+                if len(ds) == 1 and g2.must_precede([i for st in walk_local(fb) if isinstance(st, ast.Assign) and st.value is ds[0] for i in g2.ids_of(st)], [wr[0][0]]) is None:
+                    delivered = ds[0]
+                    continue
+            break
+        joined = (isinstance(delivered, ast.Call) and call_attr(delivered) == "join" and isinstance(delivered.func.value, ast.Constant) and delivered.func.value.value == b""
+                  and [src(a) for a in delivered.args] == [bufname] and not delivered.keywords)
+        if joined:
+            ctx.ok("recursion/buffer-order", q + "flushBuffer")
+        elif any(isinstance(x, ast.Name) and x.id == bufname for x in ast.walk(delivered)):
+            ctx.violation("recursion/buffer-order", q + "flushBuffer", f"the buffer is delivered as `{src(delivered)}`, not joined in order (b''.join({bufname}))")
+        else:
+            ctx.note(f"recursion/buffer-order: what flushBuffer delivers (`{src(delivered)}`) was not recognised; clause left to flatten/parses-back (bounded)")
     clears = g2.ids(lambda x: x.kind == "stmt" and ((isinstance(x.ast, ast.Delete) and src(x.ast.targets[0]) == f"{bufname}[:]") or
                                                  (isinstance(x.ast, ast.Expr) and isinstance(x.ast.value, ast.Call) and call_name(x.ast.value) == f"{bufname}.clear")))
     for n, c in wr:
